@@ -13,11 +13,11 @@ PYTHONPATH="$WT" /venv/bin/python "$SRC/m${K}_demo.py" >/dev/null 2>&1; demo0=$?
 git -C "$WT" apply "$SRC/m$K.diff" || { echo "patch does not apply"; exit 2; }
 tests=$(cd "$WT" && /venv/bin/python -m pytest -q -p no:cacheprovider --timeout=900 --continue-on-collection-errors 2>&1 | tail -1)
 PYTHONPATH="$WT" /venv/bin/python "$SRC/m${K}_demo.py" >/dev/null 2>&1; demo1=$?
-rm -f $VERIF/work/alt-replays/${PID}_*.json
-PHYLIB_REPO="$WT" $VERIF/bin/check "$PID" --tier "$TIER" > "$D/check.log" 2>&1; rc=$?
-grep -E "VIOLATION|KNOWN-FINDING|INTERNAL|tier done|outside" "$D/check.log" | sed "s#$WT#<worktree>#g" > "$D/check_summary.txt"
+TAG="seed_$$"; RD="$VERIF/work/alt-replays/$TAG"; rm -rf "$RD"
+PHYLIB_REPO="$WT" VT_RUN_TAG="$TAG" $VERIF/bin/check "$PID" --tier "$TIER" > "$D/check.log" 2>&1; rc=$?
+grep -E "VIOLATION|KNOWN-FINDING|INTERNAL|tier done|outside" "$D/check.log" | sed "s#$WT#<worktree>#g; s#work/alt-replays/$TAG/#work/alt-replays/#g" > "$D/check_summary.txt"
 cp "$SRC/m$K.diff" "$D/patch.diff"; cp "$SRC/m${K}_demo.py" "$D/demo.py"
-n=0; for f in $VERIF/work/alt-replays/${PID}_*.json; do [ -f "$f" ] && { cp "$f" "$D/replay_$n.json"; n=$((n+1)); }; done
+rm -f "$D"/replay_*.json; n=0; for f in $RD/${PID}_*.json; do [ -f "$f" ] && { cp "$f" "$D/replay_$n.json"; n=$((n+1)); }; done
 /venv/bin/python - "$PID" "$K" "$SRC/m$K.json" "$D" "$demo0" "$demo1" "$tests" "$rc" "$TIER" <<'PY'
 import json, sys, glob, os
 pid, k, src, d, demo0, demo1, tests, rc, tier = sys.argv[1:10]
@@ -43,4 +43,4 @@ ok = ('52 passed' in tests) and int(demo0) == 0 and int(demo1) != 0
 print('%s-m%s confirmed=%s tests=[%s] demo %s->%s check_exit=%s detected=%s concrete=%s' % (pid, k, ok, tests.strip(), demo0, demo1, rc, bool(viol), bool(concrete)))
 PY
 rm -f "$D/check.log"
-rm -f $VERIF/work/alt-replays/${PID}_*.json
+rm -rf "$RD" "$VERIF/work/alt-evidence/$TAG"
